@@ -140,6 +140,22 @@ theorem race_safe {cfg : Cfg} {w : World} (hinj : HashInj w) {s : St} (h : Cache
   obtain ⟨r1, r2, r3, r4⟩ := race_spec hinj h.1 stem n sched
   exact ⟨r1, ⟨r2, rtInv_of_rt_eq r4 h.2⟩, r3⟩
 
+/-- … and the racers may be **killed anywhere**: stop any schedule at any point (every loader wherever it
+    happens to be — before its probe, with its file open, half written, written but not yet renamed):
+    the shared file system satisfies the invariant, the model files are untouched, and the next load of
+    any model returns the cache-less result. -/
+theorem race_interrupted_safe {cfg : Cfg} {w : World} (hinj : HashInj w) {s : St} (h : CacheInv cfg w s)
+    (d : Dir) (stem : Stem) (c : Content) (sched : List Nat) (stem' : Stem) :
+    let sh := (runSched cfg w d stem c s (fun _ => Proc.fresh) sched).1
+    CacheInv cfg w sh ∧ sh.files = s.files
+    ∧ (loadFull cfg w sh stem').2.1 = CacheSpec.expected w s.files stem' false := by
+  intro sh
+  obtain ⟨h1, h2, h3, _⟩ := runSched_spec hinj d stem c sched
+    (show RaceInv cfg w c s (fun _ => Proc.fresh) from ⟨h.1, fun _ => pinv_fresh cfg w c⟩)
+  have hR : RtInv w sh := rtInv_of_rt_eq h3 h.2
+  refine ⟨⟨h1.1, hR⟩, h2, ?_⟩
+  rw [(loadFull_spec hinj h1.1 hR stem').1, h2]
+
 /-- **`atomic_no_torn`**: with atomic writes, no history of OSACA's own operations — killed writers at any
     offset and races under any schedule included — ever leaves a cut file under a final cache name.
     (So also an OSACA that cannot skip unreadable files, e.g. an older release sharing the cache
@@ -252,6 +268,10 @@ example : (run shippedCfg idWorld init0
     [.crashWrite 0 0, .load 0 false, .corrupt (compKey 1 0 7), .corrupt (homeKey 0 7), .newProcess,
      .load 0 false, .drop (compKey 1 0 7), .concurrent 0 3 [0, 1, 2, 2, 1, 0, 0, 1, 0, 2]]).2
     = [.ok 7, .ok 7, .ok 7, .ok 7, .ok 7] := by decide
+-- two racers stopped mid-way (one has its temporary file half written, the other has not probed yet)
+example : ((runSched shippedCfg idWorld 1 0 7 init0 (fun _ => Proc.fresh) [0, 0, 0, 0]).2 0).pc = .half
+    ∧ ((runSched shippedCfg idWorld 1 0 7 init0 (fun _ => Proc.fresh) [0, 0, 0, 0]).2 1).pc = .probeComp := by
+  decide
 -- a killed writer does change the state (a leftover temporary file), and `corrupt` really cuts a file
 example : (run shippedCfg idWorld init0 [.crashWrite 0 0]).1.temps = 1 := by decide
 example : (run shippedCfg idWorld init0 [.load 0 false, .corrupt (compKey 1 0 7)]).1.cache (compKey 1 0 7)
